@@ -177,3 +177,31 @@ func ZZH_C10_cache_vs_db() {
 	}
 	zz.Assert("C10.root-same-through-cache-and-db", zz.EqBytes(run(true), run(false)))
 }
+
+// ZZH_C10_removal_sensitive: keys a, ab, b of one account are committed; the next block writes a
+// new value to a and, in the variants, additionally removes ab, or removes b. The three
+// resulting states differ, so the three roots must differ pairwise: dropping or adding one
+// written key (here: a removal) changes the root.
+func ZZH_C10_removal_sensitive() {
+	store := zz.NewStore()
+	l := zzNewLedger(store, nil)
+	for _, k := range zzKeys {
+		l.SetState(zzAddrs[0], []byte(k), []byte{zz.U8("v0")}, nil)
+	}
+	zzCommit(l, 1)
+	x := []byte{zz.U8("x")}
+	run := func(remove string) []byte {
+		s := store.Clone()
+		y := zzNewLedger(s, nil)
+		y.SetState(zzAddrs[0], []byte("a"), x, nil)
+		if remove != "" {
+			y.SetState(zzAddrs[0], []byte(remove), nil, nil)
+		}
+		_, r := y.FlushDirtyData()
+		return r.Bytes()
+	}
+	none, ab, b := run(""), run("ab"), run("b")
+	zz.Assert("C10.removal-changes-root", zz.Not(zz.EqBytes(none, ab)))
+	zz.Assert("C10.removal-changes-root", zz.Not(zz.EqBytes(none, b)))
+	zz.Assert("C10.which-key-was-removed-changes-root", zz.Not(zz.EqBytes(ab, b)))
+}
